@@ -620,6 +620,7 @@ func c22Build(c *an.Ctx) *c22Model {
 			m.commit[f] = true
 		}
 	}
+	c22Cur = m
 	c.Min("pinner primitive mutators (role: direct record/index writes)", len(m.prim), 3)
 	c.Min("pinner dirty-flag markers", len(m.markers), 1)
 	c.Min("pinner dirty-flag cleaners", len(m.cleaner), 1)
@@ -717,7 +718,8 @@ func c22ErrAborts(fn *ssa.Function, call ssa.CallInstruction) bool {
 	return false
 }
 
-func c22CallLabel(call ssa.CallInstruction) string {
+// c22CallName: the callee as written in the source (for report details only).
+func c22CallName(call ssa.CallInstruction) string {
 	ci := an.Callee(call)
 	if ci.Invoke {
 		pth := an.PathOf(an.Recv(call))
@@ -730,6 +732,66 @@ func c22CallLabel(call ssa.CallInstruction) string {
 		return "func-value"
 	}
 	return ci.Name
+}
+
+// c22CallLabel names a call by the ROLE of its callee, for obligation keys:
+// keys must not change when an unexported function, method, field or type of
+// the package is renamed. Index fields are named by kind, the pin datastore as
+// "datastore", local functions by what they do (adder, remover, marker, ...);
+// exported and foreign callees keep their (API) names.
+func c22CallLabel(call ssa.CallInstruction) string {
+	ci := an.Callee(call)
+	if ci.Invoke {
+		switch {
+		case c22IsIndexerCall(ci):
+			names := map[string]string{"R": "recursiveIndex", "D": "directIndex", "N": "nameIndex"}
+			if k := names[c22IndexKind(call)]; k != "" {
+				return k + "." + ci.Name
+			}
+			return "Indexer." + ci.Name
+		case c22IsDstoreCall(ci):
+			return "datastore." + ci.Name
+		}
+		if ast.IsExported(ci.Recv) {
+			return ci.Recv + "." + ci.Name
+		}
+		return "dep." + ci.Name
+	}
+	if ci.Fn == nil && ci.Static == nil {
+		return "func-value"
+	}
+	g := c22Local(ci)
+	if g == nil {
+		return ci.Name // foreign function: API name
+	}
+	if m := c22Cur; m != nil {
+		isRead := false
+		if rs := g.Signature.Results(); rs.Len() == 2 && c22R.pinT != nil && an.TypeIs(rs.At(0).Type(), c22Pkg, c22R.pinT.Obj().Name()) && an.IsErrorType(rs.At(1).Type()) {
+			isRead = true
+		}
+		switch {
+		case m.markers[g]:
+			return "marker"
+		case m.cleaner[g]:
+			return "cleaner"
+		case m.adds[g] && m.removes[g]:
+			return "replacer"
+		case m.adds[g]:
+			return "adder"
+		case m.removes[g]:
+			return "remover"
+		case m.mut[g]:
+			return "indexWriter"
+		case m.cleans[g] || m.commit[g]:
+			return "committer"
+		case isRead:
+			return "recordReader"
+		}
+	}
+	if g.Parent() == nil && ast.IsExported(g.Name()) {
+		return g.Name()
+	}
+	return "helper"
 }
 
 func (m *c22Model) modeName(v ssa.Value) string {
